@@ -373,6 +373,8 @@ def c18_cases(rnd, tier):
         ([("Python", 3, [31] * 12)], [("Python", 3, [31] * 12)]),                # more than ten findings
         ([("Python", 1, [31] * 10)], None), ([("Python", 1, [31] * 11)], None),
         ([("Python", 1, [5]), ("C", 1, [500])], None),
+        ([("Python", 1, [40]), ("C", 1, [70])], []), ([("Python", 2, [40, 61])], []),      # previous report without any file
+        ([("Python", 1, []), ("C", 1, [])], [("Python", 1, []), ("C", 2, [])]),             # files without functions
     ]
     for cur, prev in shapes:
         yield files_for(cur), (files_for(prev) if prev is not None else None)
@@ -386,11 +388,100 @@ def c18_cases(rnd, tier):
         yield files_for(cur), (files_for(prev) if prev is not None else None)
 
 
+# ------------------------------------------------------------------------------------------- C19 (rendered summary of real reports)
+def check_c19(steps):
+    """steps: list of ('add', path, language, measurements) | ('aggregate',). The summary of both formats is rendered after every
+    step and compared with the statement computed from the measurements added so far."""
+    import re
+    from codelimit.common.Codebase import Codebase
+    from codelimit.common.SourceFileEntry import SourceFileEntry
+    from codelimit.common.report.Report import Report
+    from codelimit.common.report import format_text, format_markdown
+    fails = []
+    cb = Codebase("/root/dir")
+    rep = Report(cb)
+    prof = [0, 0, 0, 0]
+    for k, st in enumerate(steps):
+        if st[0] == "add":
+            _, path, lang, ms = st
+            cb.add_file(SourceFileEntry(path, "chk", lang, sum(m.value for m in ms), ms))
+            for m in ms:
+                prof[cat(m.value)] += m.value
+        else:
+            cb.aggregate()
+        total = sum(prof)
+        for fmt, fn in (("text", format_text.print_summary), ("markdown", format_markdown.print_summary)):
+            try:
+                out = render(fn, rep)
+            except Exception as e:  # noqa
+                fails.append((f"{fmt}:exception", f"after {k + 1} steps: {type(e).__name__}: {e}"))
+                continue
+            row = None
+            for line in out.splitlines():
+                nums = re.findall(r"(-?\d+)%", line)
+                if len(nums) == 3:
+                    row = [int(x) for x in nums]
+                    break
+            if row is None:
+                fails.append((f"{fmt}:no-percentages", f"after {k + 1} steps: {out[:200]!r}"))
+                continue
+            ev, hard, unm = row
+            what = f"after steps {[s_[0] for s_ in steps[:k + 1]]}: profile {prof} shown as {row}"
+            if not all(0 <= x <= 100 for x in row) or sum(row) != 100:
+                fails.append((f"{fmt}:range-or-sum", what))
+            if total > 0:
+                true = [100 * (prof[0] + prof[1]) / total, 100 * prof[2] / total, 100 * prof[3] / total]
+                if any(abs(a - b) >= 2 for a, b in zip(row, true)):
+                    fails.append((f"{fmt}:not-within-two-points", what + f", true shares {[round(x, 3) for x in true]}"))
+                if (prof[2] * 100000 > total and hard == 0) or (prof[3] * 100000 > total and unm == 0):
+                    fails.append((f"{fmt}:shown-as-zero", what))
+            necessary = "refactoring necessary" in out
+            fine = "no refactoring necessary" in out
+            if fine:
+                necessary = False
+            if necessary != (unm > 0 or hard > 20) or (necessary == fine):
+                fails.append((f"{fmt}:verdict", what + f": verdict {'necessary' if necessary else 'not necessary'}"))
+    return fails
+
+
+def c19_cases(rnd, tier):
+    vals = [1, 10, 15, 16, 30, 31, 45, 60, 61, 90, 500]
+    for _ in range(60 if tier == "quick" else 800):
+        steps = []
+        for i in range(rnd.randint(1, 4)):
+            ms = mk_measurements(rnd, rnd.randint(0, 4))
+            for m in ms:
+                m.value = rnd.choice(vals)
+            steps.append(("add", rnd.choice(["", "a/", "a/b/"]) + f"f{i}.py", rnd.choice(LANGS), ms))
+            if rnd.random() < 0.5:
+                steps.append(("aggregate",))
+        yield steps
+    from codelimit.common.Measurement import Measurement
+    from codelimit.common.Location import Location
+
+    def one(v):
+        return [Measurement("f", Location(1, 1), Location(v, 2), v)]
+    # the verdict boundary (hard-to-maintain exactly 20 %, just above, just below), tiny shares, stale aggregates
+    yield [("add", "a.py", "Python", one(40) + one(10) * 16)]            # 40 / 200 = 20 %
+    yield [("add", "a.py", "Python", one(41) + one(10) * 16)]
+    yield [("add", "a.py", "Python", one(39) + one(10) * 16)]
+    yield [("add", "a.py", "Python", one(40)), ("add", "b.py", "Python", one(8000))]
+    yield [("add", "a.py", "Python", one(10) * 3), ("aggregate",), ("add", "b.py", "Python", one(90))]
+    yield [("add", "a.py", "Python", one(10) * 3), ("aggregate",), ("aggregate",), ("add", "d/b.py", "C", one(90)), ("aggregate",)]
+
+
 def main():
     if sys.argv[1] == "--replay":
         rp = json.load(open(sys.argv[2]))
         c = rp["case"]
         rnd = random.Random(0)
+        if rp["obligation"].startswith("C19"):
+            from codelimit.common.Measurement import Measurement as _M
+            from codelimit.common.Location import Location as _L
+            steps = [tuple(st) if st[0] != "add" else ("add", st[1], st[2], [_M(n, _L(a, b), _L(c2, d), v) for n, a, b, c2, d, v in st[3]]) for st in c["steps"]]
+            fs = check_c19(steps)
+            print(json.dumps({"reproduced": bool(fs), "failures": fs[:3]}))
+            return
         from codelimit.common.Measurement import Measurement
         from codelimit.common.Location import Location
         files = [(p, l, [Measurement(n, Location(a, b), Location(c2, d), v) for n, a, b, c2, d, v in ms]) for p, l, ms in c["files"]]
@@ -427,6 +518,16 @@ def main():
                 if len(fails) > 40:
                     break
             samples = [{"paths": paths}]
+        elif prop == "C19":
+            for steps in c19_cases(rnd, tier):
+                evals += 1
+                ser_steps = [(st[0],) if st[0] != "add" else ("add", st[1], st[2], ser([(st[1], st[2], st[3])])[0][2]) for st in steps]
+                distinct.add(json.dumps(ser_steps, default=str))
+                for kind, what in check_c19(steps)[:2]:
+                    fails.append({"name": f"C19:{kind}", "what": what, "tags": [], "case": {"steps": ser_steps}})
+                if len(fails) > 30:
+                    break
+            samples = [{"note": "summaries of both formats rendered after every add_file / aggregate step of generated codebases"}]
         elif prop in ("C18", "C02"):
             for cur, prev in c18_cases(rnd, tier):
                 for full in (False, True):
